@@ -318,6 +318,82 @@ def coqc_file(path, rundir, extra_Q=()):
     p = subprocess.run(cmd, capture_output=True, text=True, cwd=rundir)
     return p.returncode, (p.stdout + p.stderr)
 
+
+# ----------------------------------------------------------------------------------------
+# thorough tier: cross-check extraction against the kernel's evaluator, and coqchk
+def _coq_sx(v):
+    if isinstance(v, int):
+        return '(A (%d))' % v if v < 0 else '(A %d)' % v
+    return '(L [' + '; '.join(_coq_sx(x) for x in v) + '])'
+
+VM_HEADER = r"""From Pybtex Require Import Base.Prelude.
+Require Import %s.
+Open Scope Z_scope.
+Fixpoint sx_eqb (a b : sexp) {struct a} : bool :=
+  match a, b with
+  | A x, A y => Z.eqb x y
+  | L xs, L ys =>
+      (fix go (xs ys : list sexp) {struct xs} : bool :=
+         match xs, ys with
+         | nil, nil => true
+         | x :: xs', y :: ys' => andb (sx_eqb x y) (go xs' ys')
+         | _, _ => false
+         end) xs ys
+  | _, _ => false
+  end.
+Definition bad (cs : list (Z * sexp * sexp)) : nat :=
+  length (filter (fun c => negb (sx_eqb (dispatch (fst (fst c)) (snd (fst c))) (snd c))) cs).
+"""
+
+def vm_crosscheck(ck, pid, mcases, mouts, n=240, maxlen=1500):
+    """evaluate `dispatch` inside Coq (vm_compute) on a sample of the cases the extracted runner
+    executed and compare with the runner's outputs.  Returns dict(evaluated, disagreements, log)."""
+    idxs = [i for i, (fn, arg) in enumerate(mcases) if len(sx(arg)) <= maxlen and len(sx(mouts[i])) <= 4 * maxlen]
+    if not idxs:
+        return {'evaluated': 0, 'disagreements': 0, 'log': 'no case small enough'}
+    step = max(1, len(idxs) // n)
+    pick = idxs[::step][:n]
+    extr_dir = os.path.join(VERIF, '_build', 'extract', pid.lower())
+    files = []
+    per = 60
+    for k in range(0, len(pick), per):
+        path = os.path.join(ck.rundir, 'VmCases%d.v' % (k // per))
+        with open(path, 'w') as f:
+            f.write(VM_HEADER % pid)
+            f.write('Definition cases : list (Z * sexp * sexp) := [\n')
+            f.write(';\n'.join('(%d, %s, %s)' % (mcases[i][0], _coq_sx(mcases[i][1]), _coq_sx(mouts[i])) for i in pick[k:k + per]))
+            f.write('].\nEval vm_compute in (bad cases).\n')
+        files.append(path)
+    procs = [subprocess.Popen(['bash', '-c', 'ulimit -s unlimited 2>/dev/null; exec timeout 900 coqc -Q %s Pybtex -Q %s "" %s' % (COQ, extr_dir, f)],
+                              stdout=subprocess.PIPE, stderr=subprocess.STDOUT, text=True, cwd=ck.rundir) for f in files]
+    dis = 0; log = ''; done = 0
+    for p, f, k in zip(procs, files, range(0, len(pick), per)):
+        out, _ = p.communicate()
+        m = re.search(r'=\s*(\d+)(?:%nat)?\s*:\s*nat', out)
+        if p.returncode != 0 or not m:
+            dis += 1; log += 'coqc failed on %s: %s\n' % (os.path.basename(f), out[-600:])
+        else:
+            dis += int(m.group(1)); done += len(pick[k:k + per])
+    return {'evaluated': done, 'disagreements': dis, 'log': log[-1500:]}
+
+def coqchk_step(pid):
+    t = time.time()
+    p = subprocess.run(['timeout', '1500', 'coqchk', '-o', '-silent', '-Q', COQ, 'Pybtex', 'Pybtex.Props.' + pid], capture_output=True, text=True)
+    out = p.stdout + p.stderr
+    m = re.search(r'\* Axioms:(.*?)\n\s*\n\* Constants/Inductives relying on type-in-type:(.*?)\n\s*\n\* Constants/Inductives relying on unsafe \(co\)fixpoints:(.*?)\n\s*\n\* Inductives whose positivity is assumed:(.*?)\n', out, flags=re.S)
+    res = {'rc': p.returncode, 'wall_s': round(time.time() - t, 1), 'cmd': 'coqchk -o -silent -Q %s Pybtex Pybtex.Props.%s' % (COQ, pid)}
+    if m:
+        res.update({'axioms': ' '.join(m.group(1).split()), 'type_in_type': ' '.join(m.group(2).split()),
+                    'unsafe_fixpoints': ' '.join(m.group(3).split()), 'positivity_assumed': ' '.join(m.group(4).split())})
+        res['clean'] = p.returncode == 0 and all(res[k] == '<none>' for k in ('type_in_type', 'unsafe_fixpoints', 'positivity_assumed'))
+        axs = [] if res['axioms'] == '<none>' else re.findall(r'([A-Za-z0-9_\.\']+)\s*:', res['axioms']) or [res['axioms']]
+        res['nonstd_axioms'] = [a for a in axs if a not in STD_AXIOMS_OK and a.split('.')[-1] not in STD_AXIOMS_OK]
+        if res['nonstd_axioms']:
+            res['clean'] = False
+    else:
+        res['clean'] = False; res['tail'] = out[-800:]
+    return res
+
 # ----------------------------------------------------------------------------------------
 def load_known():
     out = []
@@ -446,6 +522,22 @@ def run_check(mod, tier, seed):
                 model_ok = False
                 broken_obligations.append('extracted model runner failed: %r' % (e,))
         ck.log('model done')
+        thorough_info = {}
+        if tier == 'thorough' and ok and model_ok and not os.environ.get('VERIF_SKIP_KERNEL_XCHECK'):
+            mcases = [(fn, norm(marg(fn, arg))) for (fn, arg) in plain] if marg else plain
+            try:
+                vm = vm_crosscheck(ck, pid, mcases, mouts)
+            except Exception as e:
+                vm = {'evaluated': 0, 'disagreements': 1, 'log': repr(e)}
+            thorough_info['vm_compute_crosscheck'] = vm
+            ck.log('vm_compute cross-check: %s' % vm)
+            if vm['disagreements']:
+                broken_obligations.append('extracted runner and vm_compute evaluation of dispatch disagree (or the cross-check failed to compile): ' + vm['log'][-600:])
+            ch = coqchk_step(pid)
+            thorough_info['coqchk'] = ch
+            ck.log('coqchk: %s' % ch)
+            if not ch['clean']:
+                broken_obligations.append('coqchk -o on Props/%s did not come back clean: %s' % (pid, json.dumps(ch)[-600:]))
         iouts = run_impl(implf, plain)
         ck.log('impl done')
         mismatches = []
@@ -622,6 +714,8 @@ def run_check(mod, tier, seed):
             'mismatches': len(mismatches), 'oracle_failures': len(oracle_fail),
             'known_findings_reproduced': ck.known_hits,
             'functions_compared': sorted(v[0] for v in funcs.values()),
+            'kernel_crosschecks': thorough_info,
+            'vm_compute_crosschecked': thorough_info.get('vm_compute_crosscheck', {}).get('evaluated', 0),
         })
         ev['assumptions'] = getattr(mod, 'ASSUMPTIONS', [])
     except Exception as e:
